@@ -13,7 +13,8 @@
      ysig past ys    the output extended by  y[-k] = past k  before time 0
      past ord zero mem k   the k-th item of the memory argument (None: zero; callable: asked for ord items) *)
 From Coq Require Import String List Bool Arith ZArith QArith Qcanon.
-From AL Require Import Base.CaseLib C04.Model C04.Spec C04.Lib C04.ProofsLoop C04.ProofsCall C04.ProofsBuild.
+From AL Require Import Base.CaseLib C04.Model C04.Spec C04.Lib C04.ProofsLoop C04.ProofsCall C04.ProofsBuild
+  C04.ProofsSpec C04.ProofsCtor C04.Check C04.ProofsPerm C04.ProofsCheck.
 Import ListNotations.
 Open Scope list_scope.
 Open Scope Qc_scope.
@@ -68,3 +69,138 @@ Theorem C04_call_sat : forall f mem zero xs, wf f ->
   sat (f_num f) (f_den f) mem zero xs (obs_of (call f mem zero xs)).
 Proof. exact call_sat. Qed.
 Print Assumptions C04_call_sat.
+
+(* the boolean checker evaluated on every observed case (Check.holds_call) decides [sat] *)
+Theorem C04_sat_b_spec : forall num den mem zero x o,
+  sat_b num den mem zero x o = true <-> sat num den mem zero x o.
+Proof. exact sat_b_spec. Qed.
+Print Assumptions C04_sat_b_spec.
+
+(* LinearFilter.__init__ : the model's constructor is Spec.constructed (both tables move by the lowest
+   denominator power) followed by the deletion of zero coefficients; no filter iff the denominator is zero *)
+Theorem C04_mk_filter_constructed : forall num den,
+  match constructed num den with
+  | None => mk_filter num den = Err EmptyDen
+  | Some nd => mk_filter num den = Ok (Filt (compact (fst nd)) (compact (snd nd)))
+  end.
+Proof. exact mk_filter_constructed. Qed.
+Print Assumptions C04_mk_filter_constructed.
+
+(* den_normalised: numerator and denominator are multiplied by the same power of z (the transfer function
+   is kept) and the lowest denominator power becomes 0 *)
+Theorem C04_den_normalised : forall num den n' d',
+  constructed num den = Some (n', d') ->
+  exists p, lowest (match den with ANone => [(0%Z, 1)] | _ => table_of den end) = Some p /\
+    (forall k, coef n' k = coef (table_of num) (k + p)%Z) /\
+    (forall k, coef d' k = coef (match den with ANone => [(0%Z, 1)] | _ => table_of den end) (k + p)%Z) /\
+    lowest d' = Some 0%Z.
+Proof. exact den_normalised. Qed.
+Print Assumptions C04_den_normalised.
+
+(* constructor + call, against the spec-side tables (no model notion in the conclusion but [call]) *)
+Theorem C04_constructed_call_sat : forall num den n' d', carg_ok num -> carg_ok den ->
+  constructed num den = Some (n', d') ->
+  exists f, mk_filter num den = Ok f /\
+    forall mem zero xs, sat n' d' mem zero xs (obs_of (call f mem zero xs)).
+Proof. exact constructed_call_sat. Qed.
+Print Assumptions C04_constructed_call_sat.
+
+(* The property in its own words, for coefficient lists b = [b0; b1; ...] and a = [a0; a1; ...], a0 <> 0:
+     a0 * y[n] = (b0 x[n] + b1 x[n-1] + ...) - (a1 y[n-1] + a2 y[n-2] + ...),
+   one output per input; the all-zero filter outputs the zero value. *)
+Theorem C04_lists_diffeq : forall b a0 ar mem zero xs, a0 <> 0 ->
+  exists ys, run_filter b (a0 :: ar) mem zero xs = Ok ys /\ length ys = length xs /\
+    if all_zero (enumerate_from 0 b) (enumerate_from 0 (a0 :: ar)) then ys = repeat zero (length xs)
+    else forall n, (n < length xs)%nat ->
+           a0 * ysig (past (order (enumerate_from 0 (a0 :: ar))) zero mem) ys (Z.of_nat n)
+           = dot b (fun k => xsig zero xs (Z.of_nat n - k)) 0
+             - dot ar (fun k => ysig (past (order (enumerate_from 0 (a0 :: ar))) zero mem) ys (Z.of_nat n - k)) 1.
+Proof. exact lists_diffeq. Qed.
+Print Assumptions C04_lists_diffeq.
+
+(* ---- non-vacuity: (1 - z^-1 + 2 z^-2) / (2 - 1/2 z^-1 + z^-2), memory [10; 20], zero 5/3, four inputs.
+   y0 = (1 - 5/3 + 10/3 + 5 - 20)/2 = -37/6, ... *)
+Definition C04_ex_b : list Qc := [qc 1 1; qc (-1) 1; qc 2 1].
+Definition C04_ex_a : list Qc := [qc 2 1; qc (-1) 2; qc 1 1].
+Example C04_example_run :
+  run_filter C04_ex_b C04_ex_a (MIter [qc 10 1; qc 20 1]) (qc 5 3) [qc 1 1; qc 0 1; qc 3 1; qc (-2) 1]
+  = Ok [qc (-37) 6; qc (-43) 8; qc 407 96; qc 479 384].
+Proof. vm_compute. reflexivity. Qed.
+Print Assumptions C04_example_run.
+
+(* the hypotheses of the central theorem hold of that filter, and its program has every kind of term *)
+Example C04_example_hyps :
+  exists f, mk_filter (AList C04_ex_b) (AList C04_ex_a) = Ok f /\ wf f /\
+    causal (f_num f) (f_den f) = true /\ coef (f_den f) 0 <> 0 /\ all_zero (f_num f) (f_den f) = false /\
+    codegen f 0 = Ok (PGen (Prog [1; 2]%nat [1; 2]%nat
+                        [D 0; NegD 1; CoefD (qc 2 1) 2; NegCoefM (qc (-1) 2) 1; NegM 2] (GDiv (qc 2 1))
+                        [(2, 1); (1, 0)]%nat [(2, 1); (1, 0)]%nat)).
+Proof.
+  eexists. split; [vm_compute; reflexivity|]. split.
+  - apply (mk_filter_wf (AList C04_ex_b) (AList C04_ex_a)); simpl; auto.
+  - repeat split; try (vm_compute; reflexivity). vm_compute. discriminate.
+Qed.
+Print Assumptions C04_example_hyps.
+
+(* z (one sample of advance) refuses to run; 1 / (z^-1 + z^-2) = z / (1 + z^-1) as well *)
+Example C04_example_noncausal :
+  (exists f, mk_filter (ADict [((-1)%Z, qc 1 1)]) ANone = Ok f /\ causal (f_num f) (f_den f) = false /\
+             call f MNone 0 [qc 1 1] = Err NonCausal) /\
+  (exists f, mk_filter (AList [qc 1 1]) (AList [0; qc 1 1; qc 1 1]) = Ok f /\
+             f_den f = [(0%Z, qc 1 1 * 1); (1%Z, qc 1 1 * 1)] /\ call f MNone 0 [qc 1 1] = Err NonCausal).
+Proof.
+  split; eexists; (split; [vm_compute; reflexivity|]); split; vm_compute; reflexivity.
+Qed.
+Print Assumptions C04_example_noncausal.
+
+(* constructor, then ANY number of item assignments numpoly[k] = v / denpoly[k] = v, then the call:
+   the observation satisfies the property stated on the spec-side tables (Spec.constructed, Spec.tampered) *)
+Theorem C04_build_call_sat : forall num den ts nd, carg_ok num -> carg_ok den ->
+  constructed num den = Some nd ->
+  exists f, build num den ts = Ok f /\
+    forall mem zero xs,
+      sat (fst (fold_left tampered ts nd)) (snd (fold_left tampered ts nd)) mem zero xs (obs_of (call f mem zero xs)).
+Proof. exact build_call_sat. Qed.
+Print Assumptions C04_build_call_sat.
+
+(* Soundness of the verdict protocol for this property: whatever the implementation was observed to do
+   (captured program text, outputs or exception, for every run of the case), if it agrees with the model
+   (Check.corr_call) then it satisfies the property's boolean checker (Check.holds_call). *)
+Theorem C04_corr_implies_holds : forall c, carg_ok (c_num c) -> carg_ok (c_den c) ->
+  corr_call c = true -> holds_call c = true.
+Proof. exact corr_implies_holds. Qed.
+Print Assumptions C04_corr_implies_holds.
+
+(* ---- non-vacuity of the remaining hypotheses *)
+(* a0 deleted by an assignment: ZeroDivisionError; the all-zero filter yields the zero value 5/3 *)
+Example C04_example_zero_gain_and_allzero :
+  (exists f, build (AList [qc 1 1; qc 1 1]) (AList [qc 1 1; qc (-1) 1]) [SetDen 0 0] = Ok f /\
+             causal (f_num f) (f_den f) = true /\ coef (f_den f) 0 = 0 /\
+             call f MNone 0 [qc 1 1; qc 2 1] = Err ZeroGain) /\
+  (exists f, mk_filter (AList [0; 0]) (AList [qc 5 1]) = Ok f /\
+             all_zero (f_num f) (f_den f) = true /\
+             call f (MIter [qc 9 1]) (qc 5 3) [qc 1 1; qc 2 1] = Ok [qc 5 3; qc 5 3]).
+Proof.
+  split; eexists; (split; [vm_compute; reflexivity|]); repeat split; vm_compute; reflexivity.
+Qed.
+Print Assumptions C04_example_zero_gain_and_allzero.
+
+(* a case as the harness writes it (dict constructor with a late denominator, one assignment, a callable
+   memory, captured program): it agrees with the model, hence C04_corr_implies_holds applies to it *)
+Definition C04_example_case : ccase :=
+  CC (ADict [(3%Z, qc 2 1); (1%Z, qc 1 1)]) (ADict [(2%Z, qc (-1) 1); (1%Z, qc 4 1)]) [SetNum 1 (qc (-1) 1)]
+     None
+     [Run (MCall (ramp (qc 1 2) 0 0)) (qc 5 3) [qc 1 1; qc 2 1; qc 3 1]
+          (Captured (PGen (Prog [1]%nat [1; 2]%nat [D 0; NegD 1; CoefD (qc 2 1) 2; M 1] (GDiv (qc 4 1))
+                                [(1, 0)]%nat [(2, 1); (1, 0)]%nat)))
+          (OOut [qc 79 24; qc 61 32; qc 157 128])].
+Example C04_example_case_corr :
+  carg_ok (c_num C04_example_case) /\ carg_ok (c_den C04_example_case) /\
+  corr_call C04_example_case = true /\ holds_call C04_example_case = true.
+Proof.
+  split; [|split].
+  - simpl. repeat constructor; simpl; intuition discriminate.
+  - simpl. repeat constructor; simpl; intuition discriminate.
+  - split; vm_compute; reflexivity.
+Qed.
+Print Assumptions C04_example_case_corr.
